@@ -21,7 +21,7 @@ class Scen:
         self.mask = mask                # override of the assertion mask (default: the property itself)
         self.expect_fail = expect_fail  # sensitivity witness: substring of the one check that must fail
         self.extra = extra or {}
-        self.configs = configs or ['default']
+        self.configs = configs or ['default', 'plain']
 
 
 def U(a, b):
@@ -47,6 +47,7 @@ for fn in ('pop_back', 'pop_front', 'remove', 'swap', 'swap_remove_back', 'swap_
 add('s_mut', 'clear', ['C01', 'C03', 'C11'], U(1, 4))
 add('s_mut', 'extend_from_slice', ['C01', 'C03', 'C11'], lambda n: max(2 * n + 4, 15))
 add('s_mut', 'extend', ['C01', 'C03', 'C11', 'C12'], U(2, 4))
+add('s_mut', 'extend_ref', ['C01', 'C11'], U(2, 4))
 for fn in ('fill', 'fill_spare', 'fill_with', 'fill_spare_with'):
     add('s_mut', fn, ['C01', 'C03', 'C11'], U(1, 4))
 add('s_mut', 'make_contiguous', ['C01', 'C03', 'C07', 'C11', 'C20'], U(1, 4), stubs=[ROT])
